@@ -30,7 +30,7 @@ ASSUMPTIONS = [
     "vt.fault numbers every mutating entry point (cross-checked by the interpreter audit hook: audit_unnumbered must be 0)",
 ]
 SHARDS = {"quick": 4, "thorough": 16}
-TIMEOUT = {"quick": 420, "thorough": 1100}
+TIMEOUT = {"quick": 240, "thorough": 1100}
 MIN_EVALS = 150
 REQUIRED_COUNTERS = ("scenarios_enumerated_completely", "runs:crash-before", "runs:crash-after", "runs:torn", "runs:eio",
                      "replaced_paths_judged", "points_inside_new_window", "state:old", "state:new")
